@@ -170,6 +170,12 @@ class Opaque:
         self.what = what
 
 
+class CheckedSub:
+    """Option<usize> returned by a.checked_sub(b): Some(a-b) iff b <= a."""
+    def __init__(self, a, b):
+        self.a, self.b = a, b
+
+
 class LoopState:
     def __init__(self):
         self.L = {}
@@ -527,10 +533,33 @@ class LoopInterp:
                     if val == d.lf[1]:
                         return tgt
                 return t['otherwise']
+            if isinstance(d, tuple) and d[0] == 'discr' and isinstance(d[2], CheckedSub) and not d[1]['p']:
+                cs = d[2]
+                outs = []
+                tg = dict(t['targets'])
+                some_t = tg.get(1, t['otherwise'])
+                none_t = tg.get(0, t['otherwise'])
+                diff = lf_add(cs.a, -cs.b[1])
+                s_some = st.fork()
+                s_some.dbm.assume_le(cs.b if cs.b[0] != '0' else ('0', cs.b[1]), cs.a)
+                if s_some.dbm.consistent():
+                    s_some.L[d[1]['l']] = En('Option', 'Some', Num(diff))
+                    outs.append((s_some, some_t))
+                s_none = st.fork()
+                s_none.dbm.assume_lt(cs.a, ('0', cs.b[1]))
+                if s_none.dbm.consistent():
+                    s_none.L[d[1]['l']] = En('Option', 'None', None)
+                    outs.append((s_none, none_t))
+                for s2, tgt in outs[1:]:
+                    work.append((s2, tgt, False))
+                if not outs:
+                    return None
+                st.__dict__.update(outs[0][0].__dict__)
+                return outs[0][1]
             if isinstance(d, tuple) and d[0] == 'discr':
                 v = d[2]
                 if isinstance(v, En) and v.variant is not None:
-                    names = {'Result': ['Ok', 'Err'], 'ControlFlow': ['Continue', 'Break'], 'Conv': ['Converted', 'Abandonned']}.get(v.kind)
+                    names = {'Result': ['Ok', 'Err'], 'ControlFlow': ['Continue', 'Break'], 'Conv': ['Converted', 'Abandonned'], 'Option': ['None', 'Some']}.get(v.kind)
                     if names and v.variant in names:
                         i = names.index(v.variant)
                         for val, tgt in t['targets']:
@@ -614,6 +643,9 @@ class LoopInterp:
             raise CUnanalysable('indirect call at %s' % where)
         if p == 'core::slice::<impl [T]>::len':
             ret = Num(('n', 0))
+        elif p in ('core::num::<impl usize>::checked_sub', 'core::num::<impl usize>::checked_add') and isinstance(args[0], Num) and isinstance(args[1], Num) \
+                and args[0].lf is not None and args[1].lf is not None and args[1].lf[0] == '0' and p.endswith('checked_sub'):
+            ret = CheckedSub(args[0].lf, args[1].lf)
         elif p == 'core::mem::maybe_uninit::MaybeUninit::<T>::uninit':
             ret = MU(tys[-1] if tys else None)
         elif p == 'core::mem::maybe_uninit::MaybeUninit::<T>::as_mut_ptr':
@@ -1358,7 +1390,41 @@ def guard_rule(ctx, crate, b, label):
             if s['k'] == 'assign' and s['rv']['k'] == 'cast' and s['rv']['ck'] == 'Transmute':
                 bad.append('transmute')
         if delegates != 1 or bad:
-            ctx.add(['C10'], 'A-DELEG', WRAP, 'convert_vec_in_place does not simply delegate to the guarded function (delegations: %d, raw operations: %s)' % (delegates, bad), key='deleg')
+            ctx.add(['C10', 'C08'], 'A-DELEG', WRAP, 'convert_vec_in_place does not simply delegate to the guarded function (delegations: %d, raw operations: %s)' % (delegates, bad), key='deleg')
         else:
             ctx.inst('A-DELEG', 'convert_vec_in_place -> try_convert_vec_in_place [%s]' % label)
+            # the input vector and the converter are passed through: input = parameter 1, the adapter
+            # closure hands (t, u) on unchanged and wraps the answer in Ok; the result is unwrap()ed
+            wd = local_defs(w)
+            call = [t for bb, t in w.calls() if callee_path(t) == FN][0]
+            a0 = trace_value(w, wd, call['args'][0])[-1]
+            ok = a0 == ('param', 1)
+            cl = trace_value(w, wd, call['args'][1])[-1]
+            ok = ok and cl[0] == 'rv' and cl[1].get('ak') == 'closure'
+            res = trace_value(w, wd, {'copy': {'l': 0, 'p': [], 'ty': None}})[-1]
+            ok = ok and res[0] == 'call' and (callee_path(res[1]) or '').startswith('core::result::Result::<T, E>::unwrap') or ok and res[0] == 'call' and (callee_path(res[1]) or '').startswith('core::result::Result::<T, E>::expect')
+            if ok:
+                r0 = trace_value(w, wd, res[1]['args'][0])[-1]
+                ok = r0[0] == 'call' and r0[1] is call
+            adapter_ok = False
+            if ok:
+                ab = crate.body(cl[1]['closure'])
+                if ab is not None:
+                    ad = local_defs(ab)
+                    calls = [t for bb, t in ab.calls() if (callee_decl_path(t) or '').startswith('core::ops::function::Fn')]
+                    if len(calls) == 1:
+                        tup = trace_value(ab, ad, calls[0]['args'][1])[-1]
+                        if tup[0] == 'rv' and tup[1].get('ak') == 'tuple' and len(tup[1]['fields']) == 2:
+                            f0 = trace_value(ab, ad, tup[1]['fields'][0])[-1]
+                            f1 = trace_value(ab, ad, tup[1]['fields'][1])[-1]
+                            r = trace_value(ab, ad, {'copy': {'l': 0, 'p': [], 'ty': None}})[-1]
+                            wrapped = r[0] == 'rv' and r[1].get('adt') == 'core::result::Result' and r[1].get('variant') == 'Ok'
+                            if wrapped:
+                                inner = trace_value(ab, ad, r[1]['fields'][0])[-1]
+                                wrapped = inner[0] == 'call' and inner[1] is calls[0]
+                            adapter_ok = f0 == ('param', 2) and f1 == ('param', 3) and wrapped
+            if not ok or not adapter_ok:
+                ctx.add(['C08', 'C10'], 'A-DELEG', WRAP, 'convert_vec_in_place does not pass its input, the converter\'s arguments (element, previous output) and the converter\'s answer through unchanged', key='deleg-passthrough')
+            else:
+                ctx.inst('A-DELEG', 'adapter closure: convert(t, u) passed through, answer wrapped in Ok, result unwrapped [%s]' % label)
     ctx.floor(['C10'], 'A-GUARD', 2)
